@@ -77,7 +77,7 @@ def hash_queries():
     # quick: every split of a (block + 9)-byte message for md5 / sha1 / sha256, boundary splits for the others
     for hf in (1, 2, 4):
         L = HBS[hf] + 9
-        for (lo, hi) in ranges(0, L, 19):
+        for (lo, hi) in ranges(0, L, 10):
             qs.append(hq("hash-outnd-%s-L%d-s%d-%d" % (HNAME[hf], L, lo, hi), hf, 2, L, ["-DSLO=%d" % lo, "-DSHI=%d" % hi],
                          desc=d_outnd % (HNAME[hf], "%d..%d" % (lo, hi), L)))
     for hf in (3, 7, 5, 6):
@@ -157,7 +157,8 @@ def hmac_queries():
         ct(2, 13, 20, 90, lo, hi, "quick")
     for (lo, hi) in ((0, 0), (42, 43), (52, 52)):
         ct(4, 13, 0, 52, lo, hi, "quick", ol=(12 if lo == 0 else 0))
-    ct(5, 13, 60, 140, 98, 99, "quick")
+    ct(5, 13, 60, 140, 98, 98, "quick")
+    ct(5, 13, 60, 140, 99, 99, "quick")
     ct(5, 13, 60, 140, 140, 140, "quick")
     ct(1, 0, 70, 100, 70, 70, "quick")
     ct(1, 0, 70, 100, 100, 100, "quick")
